@@ -112,7 +112,61 @@ pub fn field_zoo(f: &Fld) -> Vec<Tagged> {
     for v in decimal_structured(p) {
         push(v, "decimal-structure");
     }
+    {
+        // values whose limbs are symmetric under a fold, as canonical integers and as Montgomery forms
+        let n64 = (f.bits + 63) / 64;
+        let rr = (b(1) << (64 * n64)) % p;
+        let rinv = f.inv(&rr).unwrap();
+        for v in limb_fold_symmetric(p) {
+            push(v.clone(), "limb-fold-symmetry");
+            push(f.mul(&(&v % p), &rinv), "limb-fold-symmetry");
+        }
+    }
     z
+}
+
+/// Non-zero values below p whose 64-bit limbs are symmetric under a fold: all limbs equal, limbs equal in
+/// pairs ([a,a,b,b], [a,b,a,b], [a,b,b,a]), XOR of all limbs zero, sum of all limbs zero mod 2^64, each limb
+/// of the form h*(2^32+1) (its two 32-bit halves equal), and XOR of the halves over all limbs zero.
+/// A zero / equality test that folds limbs with the wrong operator confuses them with zero.
+pub fn limb_fold_symmetric(p: &B) -> Vec<B> {
+    let n = ((p.bits() as usize) + 63) / 64;
+    let top = (p >> (64 * (n - 1))).to_u64_digits().first().copied().unwrap_or(1);
+    let small = |s: u64| -> u64 { (s.wrapping_mul(0x9E37_79B9_7F4A_7C15) >> 4) % top.max(2) };
+    let mut out: Vec<B> = Vec::new();
+    let from = |l: &[u64]| -> B { l.iter().enumerate().fold(b(0), |acc, (i, x)| acc + (b(*x) << (64 * i))) };
+    for seed in 1u64..=4 {
+        let (a, bb, c2) = (small(seed).max(1), small(seed + 17).max(1), small(seed + 101).max(1));
+        let mut pats: Vec<Vec<u64>> = Vec::new();
+        pats.push(vec![a; n]);
+        pats.push((0..n).map(|i| if i < n / 2 { a } else { bb }).collect());
+        pats.push((0..n).map(|i| if i % 2 == 0 { a } else { bb }).collect());
+        pats.push((0..n).map(|i| if i == 0 || i == n - 1 { a } else { bb }).collect());
+        // XOR of all limbs zero, sum of all limbs zero (the computed limb sits in a low position)
+        let mut x: Vec<u64> = (0..n).map(|i| small(seed * 7 + i as u64).max(1)).collect();
+        x[0] = x[1..].iter().fold(0u64, |acc, v| acc ^ v);
+        pats.push(x.clone());
+        x[0] = x[1..].iter().fold(0u64, |acc, v| acc.wrapping_add(*v)).wrapping_neg();
+        pats.push(x);
+        // halves equal in every limb; halves XOR to zero across limbs
+        let h = |v: u64| -> u64 { (v & 0x7fff_ffff) * 0x1_0000_0001 };
+        pats.push((0..n).map(|i| h(small(seed * 13 + i as u64)) % top.max(2).max(0x1_0000_0001)).collect());
+        pats.push((0..n).map(|i| if i == n - 1 { (c2 & 0xffff) * 0x1_0000_0001 } else { h(a.wrapping_add(i as u64)) }).collect());
+        // only two non-zero limbs, equal
+        for i in 0..n - 1 {
+            let mut l = vec![0u64; n];
+            l[i] = a;
+            l[(i + 1) % (n - 1)] = a;
+            pats.push(l);
+        }
+        for l in pats {
+            let v = from(&l);
+            if v != b(0) {
+                out.push(v % p);
+            }
+        }
+    }
+    out
 }
 
 /// Values that copy whole limbs of the modulus: multi-word comparisons, subtract-with-borrow chains and
